@@ -117,4 +117,129 @@ Section Value.
     | a :: r1, b :: r2 => ((one - l) * a + l * b) :: vec_interp r1 r2 l
     | _, _ => []
     end.
+
+  (* ---- a periodic variable as an object with run-time history: the component's period and wrapping
+     centre can be changed after initialisation (colvar::update_cvc_config <- `cv colvar X modifycvcs`,
+     cvc::set_param); colvar::wrap and colvar::dist2/dist2_lgrad of a periodic (non-scripted) variable
+     delegate to cvcs[0], i.e. they use the parameters in force at the time of the call. ---- *)
+  Record pvar := { pv_P : T; pv_c : T }.
+  Inductive pv_op :=
+  | PvModify (P c : T)        (* modifycvcs "period P wrapAround c" *)
+  | PvWrap (x : T)            (* colvar::wrap *)
+  | PvDist2 (x1 x2 : T).      (* colvar::dist2 and colvar::dist2_lgrad *)
+  Definition pv_step (s : pvar) (o : pv_op) : pvar * list T :=
+    match o with
+    | PvModify P c => ({| pv_P := P; pv_c := c |}, [])
+    | PvWrap x => (s, [cvc_wrap (pv_c s) (pv_P s) x])
+    | PvDist2 x1 x2 => (s, [per_dist2 (pv_P s) x1 x2; per_grad (pv_P s) x1 x2])
+    end.
+  Fixpoint pv_run (s : pvar) (ops : list pv_op) : pvar * list (list T) :=
+    match ops with
+    | [] => (s, [])
+    | o :: r => let '(s1, out) := pv_step s o in let '(s2, outs) := pv_run s1 r in (s2, out :: outs)
+    end.
+  (* specification: the parameters in force after a history are those of its last modification *)
+  Fixpoint pv_in_force (s : pvar) (ops : list pv_op) : pvar :=
+    match ops with
+    | [] => s
+    | PvModify P c :: r => pv_in_force {| pv_P := P; pv_c := c |} r
+    | _ :: r => pv_in_force s r
+    end.
+
+  (* ================= extensions: constraints, right gradients, quaternion interpolation, components, bias centres ================= *)
+
+  (* ---- colvarvalue::apply_constraints: unit vectors and quaternions are divided by their norm; every other type is unchanged ---- *)
+  Definition uv_constrain (v : vec3) : vec3 :=
+    let n := nsqrt O (v3norm2 v) in let '(x, y, z) := v in (x / n, y / n, z / n).
+  Definition q_constrain (q : quat) : quat :=
+    let n := nsqrt O (qdot q q) in let '(a, b, c, d) := q in (a / n, b / n, c / n, d / n).
+
+  (* ---- colvarvalue arithmetic on 4-vectors (operator +, real * value, inner, norm2) ---- *)
+  Definition qadd (a b : quat) : quat :=
+    let '(a0, a1, a2, a3) := a in let '(b0, b1, b2, b3) := b in (a0 + b0, a1 + b1, a2 + b2, a3 + b3).
+  Definition qsub (a b : quat) : quat :=
+    let '(a0, a1, a2, a3) := a in let '(b0, b1, b2, b3) := b in (a0 - b0, a1 - b1, a2 - b2, a3 - b3).
+  Definition qscale (s : T) (a : quat) : quat := let '(a0, a1, a2, a3) := a in (s * a0, s * a1, s * a2, s * a3).
+  Definition qnorm2 (a : quat) : T := qdot a a.
+  Fixpoint vec_inner (l1 l2 : list T) : T :=
+    match l1, l2 with
+    | a :: r1, b :: r2 => a * b + vec_inner r1 r2
+    | _, _ => zero
+    end.
+
+  (* ---- quaternion interpolation: colvarvalue::interpolate = apply_constraints((1-l)*q1 + l*q2); the two end points are
+     NOT sign-aligned (q2 and -q2 give different paths; l = 1 returns q2 itself) ---- *)
+  Definition q_lin (x1 x2 : quat) (l : T) : quat := qadd (qscale (one - l) x1) (qscale l x2).
+  Definition q_interp (x1 x2 : quat) (l : T) : quat := q_constrain (q_lin x1 x2 l).
+  (* the documented "interpolation ... is undefined" error of colvarvalue::interpolate for unit vectors and quaternions:
+     raised unless |linear combination| / sqrt(dist2(x1,x2)) >= 1e-6 (a NaN ratio, 0/0, raises it too) *)
+  Definition tiny6 : T := one / nofZ O 1000000.
+  Definition uv_interp_undefined (x1 x2 : vec3) (l : T) : bool :=
+    negb (nleb O tiny6 (nsqrt O (v3norm2 (v3_interp x1 x2 l)) / nsqrt O (uv_dist2 x1 x2))).
+  Definition q_interp_undefined (x1 x2 : quat) (l : T) : bool :=
+    negb (nleb O tiny6 (nsqrt O (qnorm2 (q_lin x1 x2 l)) / nsqrt O (q_dist2 x1 x2))).
+
+  (* ---- dist2_rgrad: the gradient with respect to the SECOND argument.  Every implementation is the left gradient with the
+     arguments exchanged: colvarvalue level x2.dist2_grad(x1) (colvar::dist2_rgrad of a non-homogeneous variable, distanceDir,
+     orientation, linearCombination), distance_vec::dist2_lgrad(x2, x1), and (after the repair of cvc::dist2_rgrad,
+     distance_pairs::dist2_rgrad and cartesian::dist2_rgrad, which returned the LEFT gradient) cvc::dist2_lgrad(x2, x1) ---- *)
+  Definition sc_rgrad (x1 x2 : T) : T := sc_grad x2 x1.
+  Definition per_rgrad (P x1 x2 : T) : T := per_grad P x2 x1.
+  Definition v3_rgrad (x1 x2 : vec3) : vec3 := v3_grad x2 x1.
+  Definition uv_rgrad (x1 x2 : vec3) : vec3 := uv_grad x2 x1.
+  Definition q_rgrad (x1 x2 : quat) : quat := q_grad x2 x1.
+  Definition vec_rgrad (l1 l2 : list T) : list T := vec_grad l2 l1.
+  Definition dv_rgrad (pbc : bool) (cell : option vec3) (x1 x2 : vec3) : vec3 := dv_lgrad pbc cell x2 x1.
+
+  (* ---- the components of this build, as seen by colvar::dist2/dist2_lgrad/dist2_rgrad/wrap of a single-component variable:
+     which modelled function each one reaches, with which period and wrapping centre ---- *)
+  Inductive comp_kind :=
+  | KScalar                     (* non-periodic scalar components (distance, angle, orientationAngle, tilt, eulerTheta, polarTheta ...) : cvc:: functions, no period *)
+  | KPeriodic (P c : T)         (* dihedral, spinAngle, eulerPhi, eulerPsi, polarPhi (P = 360), distanceZ with `period`: cvc:: functions; c = wrapAround *)
+  | KVec3 (pbc : bool) (cell : option vec3)   (* distanceVec *)
+  | KUnit                       (* distanceDir *)
+  | KQuat                       (* orientation *)
+  | KVector.                    (* cartesian, distancePairs *)
+  Inductive cval := VS (x : T) | V3 (v : vec3) | VQ (q : quat) | VL (l : list T).
+  Definition comp_dist2 (k : comp_kind) (a b : cval) : option T :=
+    match k, a, b with
+    | KScalar, VS x, VS y => Some (sc_dist2 x y)
+    | KPeriodic P _, VS x, VS y => Some (per_dist2 P x y)
+    | KVec3 pbc cell, V3 x, V3 y => Some (dv_dist2 pbc cell x y)
+    | KUnit, V3 x, V3 y => Some (uv_dist2 x y)
+    | KQuat, VQ x, VQ y => Some (q_dist2 x y)
+    | KVector, VL x, VL y => Some (vec_dist2 x y)
+    | _, _, _ => None
+    end.
+  Definition comp_lgrad (k : comp_kind) (a b : cval) : option cval :=
+    match k, a, b with
+    | KScalar, VS x, VS y => Some (VS (sc_grad x y))
+    | KPeriodic P _, VS x, VS y => Some (VS (per_grad P x y))
+    | KVec3 pbc cell, V3 x, V3 y => Some (V3 (dv_lgrad pbc cell x y))
+    | KUnit, V3 x, V3 y => Some (V3 (uv_grad x y))
+    | KQuat, VQ x, VQ y => Some (VQ (q_grad x y))
+    | KVector, VL x, VL y => Some (VL (vec_grad x y))
+    | _, _, _ => None
+    end.
+  Definition comp_rgrad (k : comp_kind) (a b : cval) : option cval := comp_lgrad k b a.
+  Definition comp_wrap (k : comp_kind) (a : cval) : cval :=
+    match k, a with
+    | KPeriodic P c, VS x => VS (cvc_wrap c P x)
+    | _, _ => a
+    end.
+
+  (* ---- a moving restraint's centre on a periodic variable (colvarbias_restraint_centers_moving::update_centers):
+     linear interpolation of the two configured centres, then colvar::wrap ---- *)
+  Definition mr_center (c P x0 x1 l : T) : T := cvc_wrap c P (sc_interp x0 x1 l).
+  (* ---- OPES: centre of two merged kernels on a periodic variable (colvarbias_opes::mergeKernels): the first centre is
+     replaced by its image closest to the second, the height-weighted mean is wrapped ---- *)
+  Definition opes_merge_center (c P h1 k1 h2 k2 : T) : T :=
+    let k1' := k2 + nhalf O * per_grad P k1 k2 in
+    cvc_wrap c P ((h1 * k1' + h2 * k2) / (h1 + h2)).
+
+  (* ---- histories on one periodic variable, extended: wrap both arguments with the parameters in force, then take the
+     distance (what a bias does when it keeps wrapped centres) ---- *)
+  Definition pv_wrapped_dist2 (s : pvar) (x1 x2 : T) : list T :=
+    let y1 := cvc_wrap (pv_c s) (pv_P s) x1 in let y2 := cvc_wrap (pv_c s) (pv_P s) x2 in
+    [per_dist2 (pv_P s) y1 y2; per_grad (pv_P s) y1 y2].
 End Value.
